@@ -79,21 +79,22 @@ func (h *NFSProcedureHandler) handleReaddir(body io.Reader, reply *RPCReply, aut
 
 	buf.Write(cookieVerf[:])
 
+	// count limits the size of the whole READDIR3resok (RFC 1813 3.3.16).
+	// Everything but the entries is already known: what is in buf (minus the
+	// status word) plus the end-of-list marker and the eof flag.
 	entryCount := 0
-	maxReplySize := int(count) - 100
-	if maxReplySize < 128 {
-		maxReplySize = 128
+	resokSize := buf.Len() - 4 + 8
+	limit := int(count)
+	if limit < resokSize {
+		// A count that cannot even hold an empty listing is not a usable limit;
+		// such callers keep getting a small minimum reply.
+		limit = resokSize + 128
 	}
 	reachedLimit := false
 
 	for i, entry := range entries {
 		if uint64(i) < cookie {
 			continue
-		}
-
-		if buf.Len() >= maxReplySize {
-			reachedLimit = true
-			break
 		}
 
 		// Skip entries with nil attrs
@@ -104,6 +105,18 @@ func (h *NFSProcedureHandler) handleReaddir(body io.Reader, reply *RPCReply, aut
 		}
 		fileId := entry.attrs.FileId
 		entry.mu.RUnlock()
+
+		// entry3: value-follows + fileid + name (length + padded bytes) + cookie
+		entrySize := 4 + 8 + 4 + (len(path.Base(entry.path))+3)&^3 + 8
+		if resokSize+entrySize > limit {
+			if entryCount == 0 {
+				// not even one entry fits into what the client allows
+				return nfsErrorWithPostOp(reply, NFSERR_TOOSMALL), nil
+			}
+			reachedLimit = true
+			break
+		}
+		resokSize += entrySize
 
 		xdrEncodeUint32(&buf, 1)
 
@@ -209,21 +222,20 @@ func (h *NFSProcedureHandler) handleReaddirplus(body io.Reader, reply *RPCReply,
 
 	buf.Write(cookieVerf[:])
 
+	// maxcount limits the size of the whole READDIRPLUS3resok (RFC 1813 3.3.17).
 	entryCount := 0
 	reachedLimit := false
-	maxReplySize := int(maxCount) - 200
-	if maxReplySize < 256 {
-		maxReplySize = 256
+	resokSize := buf.Len() - 4 + 8
+	limit := int(maxCount)
+	if limit < resokSize {
+		// A maxcount that cannot even hold an empty listing is not a usable limit;
+		// such callers keep getting a small minimum reply.
+		limit = resokSize + 256
 	}
 
 	for i, entry := range entries {
 		if uint64(i) < cookie {
 			continue
-		}
-
-		if buf.Len() >= maxReplySize && entryCount > 0 {
-			reachedLimit = true
-			break
 		}
 
 		// Skip entries with nil attrs
@@ -234,6 +246,17 @@ func (h *NFSProcedureHandler) handleReaddirplus(body io.Reader, reply *RPCReply,
 		}
 		entryAttrsCopy := *entry.attrs
 		entry.mu.RUnlock()
+
+		// entryplus3: value-follows + fileid + name + cookie + post_op_attr (4+84) + post_op_fh3 (4+4+8)
+		entrySize := 4 + 8 + 4 + (len(path.Base(entry.path))+3)&^3 + 8 + 88 + 16
+		if resokSize+entrySize > limit {
+			if entryCount == 0 {
+				return nfsErrorWithPostOp(reply, NFSERR_TOOSMALL), nil
+			}
+			reachedLimit = true
+			break
+		}
+		resokSize += entrySize
 
 		xdrEncodeUint32(&buf, 1)
 
